@@ -48,6 +48,10 @@ pub struct Case {
     pub sub: (u8, u8),
     /// rows of the score buffer before it is reused by `score_into`
     pub prev_rows: usize,
+    /// score the first `first_width` matrix rows into the buffer before the real motif
+    /// (same row count, different L-M+1: the buffer's bookkeeping must follow)
+    #[serde(default)]
+    pub first_width: usize,
 }
 
 pub struct ScoreSub;
@@ -68,10 +72,10 @@ fn case_strategy(tier: Tier) -> BoxedStrategy<Case> {
                 mat_strategy(abc, width_strategy(if abc == Abc::Dna { 70 } else { 40 }), Regimes::ALL),
                 prop_oneof![3 => Just(0usize), 1 => 1usize..=3, 1 => 30usize..=40],
                 (0u8..=16, 0u8..=16),
-                prop_oneof![2 => Just(0usize), 1 => 1usize..=50],
+                (prop_oneof![2 => Just(0usize), 1 => 1usize..=50], prop_oneof![1 => Just(0usize), 1 => 1usize..=8]),
             )
         })
-        .prop_map(|(abc, cols, seq, mat, extra_wrap, sub, prev_rows)| Case { abc, cols, seq, mat, extra_wrap, sub, prev_rows })
+        .prop_map(|(abc, cols, seq, mat, extra_wrap, sub, (prev_rows, first_width))| Case { abc, cols, seq, mat, extra_wrap, sub, prev_rows, first_width })
         .boxed()
 }
 
@@ -109,6 +113,7 @@ impl Sub for ScoreSub {
                             extra_wrap: 0,
                             sub: (4, 12),
                             prev_rows: l % 3,
+                            first_width: l % 2,
                         });
                     }
                 }
@@ -167,6 +172,7 @@ fn run_backend<A: Alphabet, C: PositiveLength, P: Score<f32, A, C>>(
     pli: &P,
     p: &Prepared<A, C>,
     prev_rows: usize,
+    first_width: usize,
 ) -> Outputs<C> {
     let full = pli.score(&p.pssm, &p.striped);
     let mut into = StripedScores::<f32, C>::empty();
@@ -175,6 +181,15 @@ fn run_backend<A: Alphabet, C: PositiveLength, P: Score<f32, A, C>>(
         for c in 0..C::USIZE {
             into.matrix_mut()[r][c] = 12345.0;
         }
+    }
+    if first_width > 0 && first_width < p.cells.len() {
+        // a narrower motif first: same sequence rows, more valid positions
+        let mut dm = lightmotif::dense::DenseMatrix::<f32, A::K>::new(first_width);
+        for i in 0..first_width {
+            dm[i].copy_from_slice(&p.cells[i]);
+        }
+        let narrow = ScoringMatrix::<A>::new(p.pssm.background().clone(), dm);
+        pli.score_into(&narrow, &p.striped, &mut into);
     }
     pli.score_into(&p.pssm, &p.striped, &mut into);
     let mut part = StripedScores::<f32, C>::empty();
@@ -343,7 +358,7 @@ fn check_narrow<A: Alphabet, C: PositiveLength>(case: &Case) -> Verdict {
         return Verdict::Pass(CaseInfo::new());
     }
     let p = prepare::<A, C>(case);
-    let outs = vec![run_backend("generic", &Pipeline::<A, _>::generic(), &p, case.prev_rows)];
+    let outs = vec![run_backend("generic", &Pipeline::<A, _>::generic(), &p, case.prev_rows, case.first_width)];
     let mut info = CaseInfo::new();
     classify::<C>(case, p.idx.len(), p.cells.len(), p.rows, &p.sub, &mut info);
     match compare(case, &p, &outs, &mut info) {
@@ -358,8 +373,8 @@ fn check_16<A: Alphabet>(case: &Case) -> Verdict {
     }
     let p = prepare::<A, U16>(case);
     let outs = vec![
-        run_backend("generic", &Pipeline::<A, _>::generic(), &p, case.prev_rows),
-        run_backend("sse2", &Pipeline::<A, _>::sse2().unwrap(), &p, case.prev_rows),
+        run_backend("generic", &Pipeline::<A, _>::generic(), &p, case.prev_rows, case.first_width),
+        run_backend("sse2", &Pipeline::<A, _>::sse2().unwrap(), &p, case.prev_rows, case.first_width),
     ];
     let mut info = CaseInfo::new();
     classify::<U16>(case, p.idx.len(), p.cells.len(), p.rows, &p.sub, &mut info);
@@ -376,9 +391,9 @@ fn check_32<A: Alphabet>(case: &Case) -> Verdict {
     }
     let p = prepare::<A, U32>(case);
     let mut outs = vec![
-        run_backend("generic", &Pipeline::<A, _>::generic(), &p, case.prev_rows),
-        run_backend("sse2", &Pipeline::<A, _>::sse2().unwrap(), &p, case.prev_rows),
-        run_backend("avx2", &Pipeline::<A, _>::avx2().unwrap(), &p, case.prev_rows),
+        run_backend("generic", &Pipeline::<A, _>::generic(), &p, case.prev_rows, case.first_width),
+        run_backend("sse2", &Pipeline::<A, _>::sse2().unwrap(), &p, case.prev_rows, case.first_width),
+        run_backend("avx2", &Pipeline::<A, _>::avx2().unwrap(), &p, case.prev_rows, case.first_width),
     ];
     for arm in ARMS {
         let _g = arm.force();
@@ -387,7 +402,7 @@ fn check_32<A: Alphabet>(case: &Case) -> Verdict {
             Arm::Sse2 => "dispatch[sse2]",
             Arm::Avx2 => "dispatch[avx2]",
         };
-        let mut o = run_backend(name, &Pipeline::<A, _>::dispatch(), &p, case.prev_rows);
+        let mut o = run_backend(name, &Pipeline::<A, _>::dispatch(), &p, case.prev_rows, case.first_width);
         // the convenience entry point users call
         let conv = p.pssm.score(&p.striped);
         if conv.max_index() != o.full.max_index() || conv.unstripe().iter().zip(o.full.unstripe().iter()).any(|(a, b)| !same(*a, *b)) {
